@@ -240,3 +240,50 @@ def c05_task(shard, tid, n, order, via, seed, kind, mode, count):
                if tid % 8 == 0 else [])
     af.release()
     return res
+
+
+# ============ S2 for the grammar model: token lists PRINTED BY TLC fed to the real parser ============
+def expr_graph_task(shard, dot, part, nparts, seed, tid0, per_trace=40):
+    """Every state of MC_ExprDump carries the token lists TLC printed for its
+    syntax tree (minimal parentheses, two spelling choices).  Render them
+    (trusted renderer: white space only) and give them to `add_expr` of a real
+    manager; TLC judges each result against Meaning(Parse(tokens)) -- and
+    MC_ExprDump has checked Parse(tokens) = the tree."""
+    from harness.drivers import graph
+    from harness.rec import Trace
+    rng = random.Random(seed + part)
+    last_unused = None
+    ids = []
+    graph.POS.clear()
+    with open(dot, 'rb') as fb:
+        off = 0
+        for raw in fb:
+            m = graph._NODE.match(raw.decode('utf8').rstrip('\n'))
+            if m:
+                ids.append(m.group(1))
+                graph.POS[m.group(1)] = off
+            off += len(raw)
+    mine = ids[part::nparts]
+    fps = set()
+    nev = 0
+    ntr = 0
+    with open(shard, 'w') as f:
+        for c in range(0, len(mine), per_trace):
+            tr = Trace(tid0 + ntr, ['a', 'b'], seed=seed, meta=dict(driver='expr_graph'))
+            tr.add_var('a')
+            tr.add_var('b')
+            for nid in mine[c:c + per_trace]:
+                st = graph.model_state(dot, nid)
+                for toks in st['toks']:
+                    tokens = [dict(k=t['k'], s=t['s'], n=int(t['n'])) for t in toks]
+                    r, exc = tr.add_expr(tokens, render(tokens, rng.choice([0, 1, 2]), rng))
+                    if not exc and r:
+                        tr.decref(r)
+                    fps.add(' '.join(t['s'] for t in tokens))
+            tr.gc()
+            f.write(tr.dumps() + '\n')
+            nev += len(tr.events)
+            ntr += 1
+            tr.release_all()
+    return dict(shard=shard, traces=ntr, events=nev, fingerprints=fps, samples=[],
+                model_states=len(ids))
